@@ -726,9 +726,6 @@ theorem at2_modAt (l : List (List DV)) (s' d' : Nat) (f : DV → DV) (s d : Nat)
     | none => simp
     | some x =>
       simp only [Option.map_some, Option.bind_some, getElem?_modAt]
-      by_cases hd : d = d'
-      · simp [hd]
-      · simp [hd]
   · simp [hs]
 
 /-- **value versions of discrete variables.**  For every operation other than `autoUpdateDiscreteVariables`: a
@@ -794,5 +791,196 @@ theorem setDV_other_unchanged (st : St) (s' d' : Nat) (v : Int) (s d : Nat) (hne
       rw [hsb] at hsb'; cases hsb'
       exact Or.inl (restore_dpart_prefix sb _)
     exact at2_prefRel hpre hx hy
+
+
+/-! ## freshness is set by marks only -/
+
+theorem FreshLe.autoUpdateOne (st : St) (k : Key) : FreshLe st (st.autoUpdateOne k) := by
+  unfold St.autoUpdateOne
+  split
+  · exact FreshLe.refl _
+  · rename_i dv _
+    split
+    · exact FreshLe.refl _
+    · rename_i cx _
+      split
+      · exact FreshLe.refl _
+      · rename_i e _
+        split
+        · have h1 := FreshLe.modDV st k (fun d => { d with value := e.value, tLast := st.t })
+          have h2 := FreshLe.modCE (st.modDV k (fun d => { d with value := e.value, tLast := st.t })) (k.1, cx)
+            (fun c => { c with value := dv.value }) (fun _ h => h)
+          have h3 := FreshLe.notify ((st.modDV k (fun d => { d with value := e.value, tLast := st.t })).modCE (k.1, cx)
+            (fun c => { c with value := dv.value })) [(k.1, cx)]
+          exact h1.trans (h2.trans h3)
+        · exact FreshLe.refl _
+
+theorem FreshLe.foldl_autoUpdateOne (l : List Key) (st : St) :
+    FreshLe st (l.foldl (fun acc k => acc.autoUpdateOne k) st) := by
+  induction l generalizing st with
+  | nil => exact FreshLe.refl _
+  | cons a as ih => exact FreshLe.trans (FreshLe.autoUpdateOne st a) (ih _)
+
+theorem FreshLe.setDV (st : St) (k : Key) (v : Int) : FreshLe st (st.setDV k v) := by
+  cases h : st.dv? k with
+  | none =>
+    have : st.setDV k v = st := by unfold St.setDV; simp only [h]
+    rw [this]; exact FreshLe.refl _
+  | some dv =>
+    have hdef : st.setDV k v =
+        ((st.preSetDV k dv).modDV k (fun d => { d with valVer := d.valVer + 1, tLast := (st.preSetDV k dv).t, value := v })).notify
+          (match (st.preSetDV k dv).dv? k with | some d => d.deps | none => []) := by
+      unfold St.setDV St.preSetDV
+      simp only [h]
+      rfl
+    have hpre : FreshLe st (st.preSetDV k dv) := by
+      unfold St.preSetDV
+      split
+      · exact (FreshLe.invalAll st dv.inval).trans (FreshLe.notify _ _)
+      · exact FreshLe.invalAll st dv.inval
+    rw [hdef]
+    exact hpre.trans ((FreshLe.modDV _ _ _).trans (FreshLe.notify _ _))
+
+theorem FreshLe.advSys (st : St) (g : Nat) : FreshLe st (st.advSys g) := by
+  unfold St.advSys
+  split
+  · exact FreshLe.of_subs rfl
+  · split
+    · have key : ∀ a0 : St, a0.subs = st.subs →
+          FreshLe st ({ (((a0.notify a0.qDeps).notify a0.uDeps).notify a0.zDeps) with sys := 2 } : St) := by
+        intro a0 h0
+        have h1 : FreshLe st a0 := FreshLe.of_subs h0
+        have h2 := FreshLe.notify a0 a0.qDeps
+        have h3 := FreshLe.notify (a0.notify a0.qDeps) a0.uDeps
+        have h4 := FreshLe.notify ((a0.notify a0.qDeps).notify a0.uDeps) a0.zDeps
+        have h5 : FreshLe (((a0.notify a0.qDeps).notify a0.uDeps).notify a0.zDeps)
+            ({ (((a0.notify a0.qDeps).notify a0.uDeps).notify a0.zDeps) with sys := 2 } : St) := FreshLe.of_subs rfl
+        exact h1.trans (h2.trans (h3.trans (h4.trans h5)))
+      exact key _ rfl
+    · exact FreshLe.of_subs rfl
+
+/-- **fresh_only_by_mark.**  No operation on a State other than `markCacheValueRealized` /
+`markDiscreteVarUpdateValueRealized` makes a cache entry fresh: whatever is fresh after the operation sits at the
+same key before it and was fresh already (newly allocated entries are not fresh).  Together with
+`mark_makes_fresh`, `unmark_clears_fresh`, `restore_clears_fresh`, `copy_clears_fresh` this pins the reading of the
+ghost bit used in `cache_valid_iff`. -/
+theorem fresh_only_by_mark (st : St) (op : SOp) (h1 : ∀ s c, op ≠ .mark s c) (h2 : ∀ s d, op ≠ .markDVUpd s d) :
+    FreshLe st (stepS st op) := by
+  unfold stepS
+  cases hexc : excOf st op with
+  | some c => exact FreshLe.refl _
+  | none =>
+  simp only
+  have keep : ∀ (s : Nat) (f : Sub → Sub), (∀ sb, (f sb).ces = sb.ces) → FreshLe st (st.modSub s f) := by
+    intro s f hf
+    apply FreshLe.modSub
+    intro sb c e' hc hfe
+    rw [hf] at hc; exact ⟨e', hc, hfe⟩
+  cases op with
+  | advSub s g => exact keep s _ (fun _ => rfl)
+  | advSys g => exact FreshLe.advSys st g
+  | invalAll g => exact FreshLe.invalAll st g
+  | invalCache g => exact FreshLe.invalAll st g
+  | allocQ s vals => exact keep s _ (fun _ => rfl)
+  | allocU s vals => exact keep s _ (fun _ => rfl)
+  | allocZ s vals => exact keep s _ (fun _ => rfl)
+  | allocQErr s n => exact keep s _ (fun _ => rfl)
+  | allocUErr s n => exact keep s _ (fun _ => rfl)
+  | allocUDotErr s n => exact keep s _ (fun _ => rfl)
+  | allocTrig s g n => exact keep s _ (fun _ => rfl)
+  | allocDV s inv v => exact keep s _ (fun _ => rfl)
+  | allocAutoDV s inv v ud =>
+    exact FreshLe.pushCE st s _ (fun sb => { alloc := sb.cur + 1, dep := ud, comp := 10, value := v, assoc := some sb.dvs.length })
+      (fun _ => rfl) (fun _ => rfl)
+  | allocCE s dep comp v =>
+    exact FreshLe.pushCE st s _ (fun sb => { alloc := sb.cur + 1, dep := dep, comp := comp, value := v })
+      (fun _ => rfl) (fun _ => rfl)
+  | allocCEpre s dep comp q u z dvs ces v =>
+    show FreshLe st (match st.subs[s]? with
+      | none => st
+      | some sb => _)
+    split
+    · exact FreshLe.refl _
+    · rename_i sb hs
+      simp only
+      refine FreshLe.trans ?_ (FreshLe.register _ _ _)
+      exact FreshLe.pushCE st s _ (fun _ => _) (fun _ => rfl) (fun _ => rfl)
+  | mark s c => exact absurd rfl (h1 s c)
+  | unmark s c => exact FreshLe.notify st _
+  | markDVUpd s d => exact absurd rfl (h2 s d)
+  | setCE s c v => exact FreshLe.modCE st _ _ (fun _ h => h)
+  | getCE s c => exact FreshLe.refl _
+  | setDV s d v => exact FreshLe.setDV st _ _
+  | updQ w => exact (FreshLe.invalAll st 5).trans ((FreshLe.noteQ (st.invalAll 5)).trans (FreshLe.of_subs rfl))
+  | updU w => exact (FreshLe.invalAll st 6).trans ((FreshLe.noteU (st.invalAll 6)).trans (FreshLe.of_subs rfl))
+  | updZ w => exact (FreshLe.invalAll st 7).trans ((FreshLe.noteZ (st.invalAll 7)).trans (FreshLe.of_subs rfl))
+  | updQsub s w => exact (FreshLe.invalAll st 5).trans ((FreshLe.noteQ (st.invalAll 5)).trans (FreshLe.of_subs rfl))
+  | updUsub s w => exact (FreshLe.invalAll st 6).trans ((FreshLe.noteU (st.invalAll 6)).trans (FreshLe.of_subs rfl))
+  | updZsub s w => exact (FreshLe.invalAll st 7).trans ((FreshLe.noteZ (st.invalAll 7)).trans (FreshLe.of_subs rfl))
+  | updY => exact (FreshLe.invalAll st 5).trans (FreshLe.noteY _)
+  | setTime v => exact (FreshLe.invalAll st 4).trans (FreshLe.of_subs rfl)
+  | updUW => exact FreshLe.invalAll st _
+  | updZW => exact FreshLe.invalAll st _
+  | updUWsub s => exact FreshLe.invalAll st _
+  | updZWsub s => exact FreshLe.invalAll st _
+  | updQErrW => exact FreshLe.invalAll st _
+  | updUErrW => exact FreshLe.invalAll st _
+  | updQErrWsub s => exact FreshLe.invalAll st _
+  | updUErrWsub s => exact FreshLe.invalAll st _
+  | autoUpdate => exact FreshLe.foldl_autoUpdateOne _ st
+  | setTopoVer v => exact FreshLe.of_subs rfl
+
+
+/-! ## what a copy contains -/
+
+/-- time, continuous variables and their value versions -/
+def St.cont (st : St) : Option Int × List Int × List Int × List Int × Nat × Nat × Nat :=
+  (st.t, st.q, st.u, st.z, st.qVer, st.uVer, st.zVer)
+
+theorem cont_foldl_register (l : List (Key × CE)) (st : St) :
+    (l.foldl (fun acc ke => acc.register ke.1 ke.2) st).cont = st.cont := by
+  induction l generalizing st with
+  | nil => rfl
+  | cons a as ih => simp only [List.foldl_cons]; rw [ih]; rfl
+
+theorem dparts_foldl_register (l : List (Key × CE)) (st : St) :
+    (l.foldl (fun acc ke => acc.register ke.1 ke.2) st).dparts = st.dparts := by
+  induction l generalizing st with
+  | nil => rfl
+  | cons a as ih => simp only [List.foldl_cons]; rw [ih, dparts_register]
+
+/-- **copy: variables.**  A copy (constructor or assignment) contains, per subsystem, exactly the source's discrete
+variables allocated through the copied stage with their values, value versions and update times; time if the source
+had realized Topology; q, u, z and their value versions if it had realized Model (otherwise the pools do not exist
+and the versions are one ahead). -/
+theorem copy_keeps_variables (dstVers : List Nat) (src : St) :
+    (St.copyFrom dstVers src).dparts =
+      src.subs.map (fun sb => (popBack DV.alloc (min sb.cur 3) sb.dvs).map DV.nodeps) ∧
+    (1 ≤ src.sys → (St.copyFrom dstVers src).t = src.t) ∧
+    (2 ≤ src.sys → (St.copyFrom dstVers src).cont = src.cont) := by
+  unfold St.copyFrom St.registerAll
+  simp only
+  refine ⟨?_, ?_, ?_⟩
+  · rw [dparts_foldl_register, dparts_mapCE]
+    simp only [St.dparts, List.map_map]
+    apply List.map_congr_left
+    intro sb _
+    simp only [Function.comp, Sub.dpart, Sub.copyOf, List.map_map]
+    apply List.map_congr_left
+    intro d _
+    rfl
+  · intro h
+    have ht : ∀ (l : List (Key × CE)) (st : St), (l.foldl (fun acc ke => acc.register ke.1 ke.2) st).t = st.t :=
+      fun l st => congrArg Prod.fst (cont_foldl_register l st)
+    rw [ht]
+    show (if src.sys ≥ 1 then src.t else none) = src.t
+    rw [if_pos h]
+  · intro h
+    rw [cont_foldl_register]
+    show ((if src.sys ≥ 1 then src.t else none), (if src.sys ≥ 2 then src.q else []), (if src.sys ≥ 2 then src.u else []),
+          (if src.sys ≥ 2 then src.z else []), (if src.sys ≥ 2 then src.qVer else src.qVer + 1),
+          (if src.sys ≥ 2 then src.uVer else src.uVer + 1), (if src.sys ≥ 2 then src.zVer else src.zVer + 1)) = src.cont
+    have h1 : src.sys ≥ 1 := by omega
+    simp only [h, h1, if_true, St.cont]
 
 end C18
